@@ -20,13 +20,13 @@ def run(tier, rep):
     stride = 4 if tier == "quick" else 1
 
     def relation(rep, inst, cases):
-        pc.run_relation(rep, "c06-algebra", inst, cases, stride=stride if inst == "children" else 1)
+        pc.run_relation(rep, "c06-algebra", inst, cases, stride=stride if inst in ("children", "docs4") else 1)
 
     # "a failed extension reports an error rather than a partial result": the fault histories whose fault is in an extend
     pc.check(rep, "C06", tier, ["errors"], {"verdict"}, None, 0, invariants=["TypeOK", "Verdict"],
              case_filter=lambda m: m.get("ncalls", 1) >= 2 and m.get("expected", {}).get("st") == "err" and m.get("default_cfg", True),
              nontrivial=multi_fault)
-    pc.check(rep, "C06", tier, ["docs3", "children"], {"schema", "unsound"}, "C06",
+    pc.check(rep, "C06", tier, ["docs3", "docs4", "children"], {"schema", "unsound"}, "C06",
              sessions=500 if tier == "quick" else 6000, nontrivial=multi, rule=RULE,
              invariants=["TypeOK", "Exact", "Monotone", "NoOpOnEmptyDoc", "AlgebraInv", "ResultWF"],
              case_filter=lambda m: m.get("ncalls", 1) >= 2, relation=relation, damage=15)
